@@ -23,9 +23,10 @@ LEVEL_NOTE = (
 )
 RULE = (
     "per computation spec (Hermitian 2|2, 1|2|1, fully_diagonalize, masks, non-Hermitian, implicit, two parameters, "
-    "sympy/csr values, two computations sharing input objects) BFS over all request sequences from the listed "
+    "sympy/csr/mixed sparse-dense values, second-quantised, two computations sharing input objects) BFS over all request sequences from the listed "
     "alphabet; a case is one (spec, alphabet, depth bound); non-trivial = more than 10 distinct states reached and "
-    "at least one intermediate-term deletion observed along the way"
+    "at least one intermediate-term deletion observed along the way; plus, for the KPM solver (values reproducible only "
+    "up to its convergence noise), every ordered pair of requests compared with a fresh computation relative to the measured noise floor"
 )
 ASSUMPTIONS = [
     "float results are compared bitwise with the fresh-computation value; a difference within 1e-10 relative is "
